@@ -25,7 +25,7 @@ Definition pymin (l : list R) : R :=
 Fixpoint insert_sorted (x : R) (l : list R) : list R :=
   match l with
   | [] => [x]
-  | y :: t => if leb N x y then x :: l else y :: insert_sorted x t
+  | y :: t => if leb N x y then x :: y :: t else y :: insert_sorted x t
   end.
 Definition sort (l : list R) : list R := fold_right insert_sorted [] l.
 
